@@ -1,23 +1,29 @@
 """C19 - decoding does not depend on what was decoded before.
 
 Oracle = FRESH-PROCESS REFERENCE.  The shard process imports ExaBGP, builds the sessions (production
-constructors) and generates the message sequences WITHOUT decoding anything: it is the pristine template.
-For every sequence it forks
+constructors), builds the API encoders and generates its messages and sequences WITHOUT decoding anything:
+it is the pristine template and it never decodes.  It forks (os.fork + os.pipe + os.waitpid, SIGKILL watchdog)
 
-  * one 'sequence' child which decodes the whole interleaved sequence in order, exactly as production does
-    per message (Message.unpack -> .data -> API encoders), and returns one digest per message and per part
-    (outcome, routes, attributes, json, text),
-  * one 'fresh' child PER MESSAGE (forked from the pristine template) which decodes that single message under
-    its session and returns the same parts.
+  * one 'fresh' child PER UNIQUE MESSAGE (session, type, body): forked from the pristine template, it decodes that
+    single message under its session exactly as production does (Message.unpack -> .data -> API encoders)
+    and returns the parts (outcome, routes, attributes, json v6+v4, text) - the reference;
+  * one 'sequence' child per sequence: it decodes a long interleaved sequence drawn WITH HEAVY REPETITION from
+    the shard's unique messages and returns one digest per message and per part.
 
-digest_in_sequence(i) must equal digest_fresh(i).  The sequence child also keeps every result object and
-re-renders them (after each message: the previous result and the owner of the cached attribute set; at the
-end: all of them): a change means that a later message altered an object shared with an earlier result.
-Class level state (Attribute ID/FLAG of every registered class, capability class IDs, the registries,
-ASPath.Empty, _EOR_CACHE members, the per attribute caches, AttributeCollection.cached while `previous` is
-unchanged) is snapshotted after every message; a change alone is informational.
+digest_in_sequence(i) must equal digest_fresh(message i).  A forked child of a process holding ExaBGP costs
+0.1-1 s on this kind of VM (copy-on-write faults, not parallel across processes) where a message in a sequence
+costs 3 ms: hence few unique messages (12 per quick shard, 36 per thorough shard) and long histories over them.
 
-A disagreement is delta-debugged (sub-sequences re-decoded in forked children) so the witness is short.
+The sequence child also keeps every result object and re-renders them (after each message: the previous
+result, the result that owns the cached attribute set, the results sharing an attribute object with the new
+one, the kept OPEN/other results; at the end: all of them): a change means that a later message altered an
+object shared with an earlier result.  Class level state (Attribute ID/FLAG of every registered class,
+capability class IDs, the registries, ASPath.Empty, _EOR_CACHE members, the per attribute caches,
+AttributeCollection.cached while `previous` is unchanged) is snapshotted after every message; a change alone
+is informational.
+
+A disagreement is replayed / delta-debugged in new forked children (sub-sequences ending with the message) so
+that the witness is short: usually [the message that stored the cached attribute set, the message].
 """
 
 from __future__ import annotations
@@ -40,38 +46,45 @@ from vlib.mon import Result, jdefault
 PROPERTY = 'C19'
 LEVEL = 'exploration'
 RULE = (
-    'interleaved sequences of 50-500 messages over 2-8 concurrent sessions drawn from {asn4, 2-byte} x {add-path, none} x '
-    '{extended next hop on/off} x {ibgp, ebgp}; messages drawn with heavy repetition from a per-sequence pool: attribute blocks '
-    'whose AS_PATH bytes are valid under both ASN widths, 2-byte and 4-byte AGGREGATOR, generated rich blocks of both '
-    'encodings, near-identical blocks (one byte / one attribute apart), AS_PATH+AS4_PATH merges with repeated keys, extended '
-    'communities split over two attribute-16 TLVs (and the single / joined forms), the same block followed by itself plus '
-    'MP_REACH / MP_UNREACH (cache bypass), EORs of several families, route-refresh subtypes, OPENs with route-refresh '
-    'capability 2 / 128 / both / repeated capabilities, NOTIFICATIONs, KEEPALIVEs, qa corpus messages, mutated bodies, freshly '
-    'generated UPDATEs; every sequence is run with Attribute.caching on (production) and off; thorough adds PYTHONHASHSEED=1. '
-    'distinct = distinct (message type, pool item kind, previous session, session, cache state, caching) signatures'
+    'per shard 2-4 concurrent sessions from {asn4, 2-byte} x {add-path, none} x {extended next hop on/off} x {ibgp, ebgp} x '
+    '{aigp on/off} (both widths always; same-width sessions differ in exactly one parameter) and a small universe of unique '
+    'messages taken by whole groups of RELATED pool items, each materialised on every session: attribute blocks whose AS_PATH '
+    'bytes are valid under both ASN widths, 2-byte / 4-byte AGGREGATOR, AIGP, generated rich blocks of both encodings and their '
+    'near-identical twins (one byte / one attribute apart), AS_PATH+AS4_PATH merges with repeated keys and AS4_AGGREGATOR, '
+    'extended communities as one TLV / split over two attribute-16 TLVs / joined, a block followed by itself plus MP_REACH / '
+    'MP_UNREACH (cache bypass), EORs of several families, route-refresh subtypes, OPENs with route-refresh capability 2 / 128 / '
+    'both / repeated capabilities, NOTIFICATIONs, KEEPALIVE, qa corpus messages, generated and mutated UPDATEs; interleaved '
+    'sequences of 50-500 messages drawn with heavy repetition (same item on another session half of the time, ASN width '
+    'flipped half of the time), every shard run with Attribute.caching on (production) and off; thorough adds PYTHONHASHSEED=1 '
+    'on half of the shards. distinct = distinct (message type, pool item kind, earlier session, session, cache state, caching)'
 )
 ASSUMPTIONS = [
-    'a process forked from the template (ExaBGP imported, configuration parsed, sessions negotiated, no message decoded since) stands for "a fresh process"',
+    'a process forked from the template (ExaBGP imported, configuration parsed, sessions negotiated, encoders built, no message decoded since) stands for "a fresh process"',
     'envelope fields time / counter / pid / ppid / host of the JSON events and object addresses in messages legitimately differ and are stripped',
-    'the cache state (hit / miss / bypass) is learned by a transparent wrapper around AttributeCollection.unpack in the sequence child only',
-    'with desc["memo"] (thorough) the fresh digest of an identical (session, type, body, caching) is reused and re-forked one time in eight',
+    'the cache state (hit / miss / bypass) and the message that stored the cached attribute set are learned by a transparent wrapper around AttributeCollection.unpack, in the sequence children only; replays of a disagreement run with that wrapper only',
+    'the fresh reference of a unique message is forked once per shard and reused for every occurrence of that message (a fresh decode is a function of the message: re-checked by a second fork on a sample)',
+    'the reference is forked under one Attribute.caching setting per shard (on: even shards, off: odd shards); it is assumed equal under the other setting (sampled), and any disagreement is re-judged against a reference forked under the exact setting before it is reported',
     'child watchdog expiry (SIGKILL) only ever gives inconclusive',
 ]
 MANIFEST = {
     'level': 'exploration',
-    'technique': 'runtime monitoring with a fresh-process reference: every message of a long interleaved multi-session sequence is also decoded alone in a child forked from a pristine template; digests of routes / attributes / JSON v6+v4 / text must agree; earlier results re-rendered for shared-object immutability; class-level state snapshots',
-    'text': 'Sequences with heavy repetition designed to hit the process-wide caches are decoded in one process and, message by message, '
-    'in fresh forked processes; any difference in outcome, routes, attributes or API output is a violation, delta-debugged to a '
-    'short witness. Every kept result is re-rendered later to detect in-place alteration of shared objects. Held = no '
-    'disagreement on the generated sequences, with every (previous width -> width) x {hit, miss} class exercised.',
-    'note': 'only the receive decode path and the API encoders are observed (not the RIB); the template has already decoded the OPENs used to negotiate the sessions',
+    'technique': 'runtime monitoring with a fresh-process reference: every message of long interleaved multi-session sequences is compared with the decode of the same bytes alone in a child forked from a pristine template (routes / attributes / JSON v6+v4 / text); earlier results re-rendered for shared-object immutability; class-level state snapshots',
+    'text': 'Sequences with heavy repetition designed to hit the process-wide caches are decoded in one process; each unique message is '
+    'also decoded alone in a fresh forked process; any difference in outcome, routes, attributes or API output is a violation, '
+    'replayed in new children to a short witness. Every kept result is re-rendered later to detect in-place alteration of '
+    'shared objects. Held = no disagreement on the generated sequences, with every (storing width -> width) x {hit, miss} '
+    'class, duplicate extended communities, EOR and the MP bypass exercised.',
+    'note': 'only the receive decode path and the API encoders are observed (not the RIB); the template has already decoded the OPENs used to negotiate the sessions; forks are expensive on the target VM, so the number of unique messages per shard is small',
 }
 SHARD_TIMEOUT = {'quick': 400, 'thorough': 3000}
 
 PARTS = ('outcome', 'routes', 'attributes', 'json', 'text')
 TNAME = {1: 'open', 2: 'update', 3: 'notification', 4: 'keepalive', 5: 'refresh', 6: 'operational'}
 WIDTH_PAIRS = ['asn4->asn4', 'asn4->as2', 'as2->asn4', 'as2->as2']
-REQUIRED_CLASSES = {'quick': [f'{p}:{s}' for p in WIDTH_PAIRS for s in ('hit', 'miss')] + ['extcomm-duplicate', 'eor', 'mp-bypass']}
+# a cache HIT across sessions of different AS width only exists while the cache ignores the session kind (the defect
+# repaired upstream); what the workload must always produce is the OPPORTUNITY: the same octets arriving next on a
+# session of the other width (then a hit or a miss), and hits between sessions of the same width
+REQUIRED_CLASSES = {'quick': [f'{p}:miss' for p in WIDTH_PAIRS] + ['asn4->asn4:hit', 'as2->as2:hit', 'extcomm-duplicate', 'eor', 'mp-bypass']}
 REQUIRED_CLASSES['thorough'] = REQUIRED_CLASSES['quick']
 
 
